@@ -511,10 +511,9 @@ func (fr *Frame) backEdge(h *loopHead, st *State, pos token.Pos) {
 	name := fmt.Sprintf("%s/loop%d", fr.path, h.l.ordinal)
 	if h.spec != nil {
 		for _, ap := range h.spec.Applies {
-			call := ap.E.(*ECall)
 			env := fr.envFor(st, fr.entry, nil)
 			env.prev = h.st
-			fx.assume(st.guard, fx.eng.lemmaInstance(fx, call.Fn, call.Args, env))
+			fx.eng.applyLemma(fx, ap, env, st, name+"/backedge")
 		}
 		for i, inv := range h.spec.Invariants {
 			if !fx.eng.useClause(inv) {
@@ -867,6 +866,19 @@ func (fr *Frame) exec(in ssa.Instruction, st *State) {
 	case *ssa.Store:
 		p := fr.val(x.Addr)
 		fr.storePtr(st, p, fr.val(x.Val), x.Pos())
+		if fr.spec != nil && len(fr.spec.StoreChecks) > 0 {
+			if a, ok := x.Addr.(*ssa.Alloc); ok {
+				if _, isConst := x.Val.(*ssa.Const); !isConst {
+					for i, c := range fr.spec.StoreChecks[a.Comment] {
+						if !fx.eng.useClause(c) {
+							continue
+						}
+						t := fr.evalClause(c, st, nil, nil)
+						fx.oblige("assert", fmt.Sprintf("%s/check_at_store/%s/%s#", fr.path, a.Comment, clauseName(c, i)), st, t, x.Pos(), c.Src)
+					}
+				}
+			}
+		}
 	case *ssa.UnOp:
 		fr.execUnOp(x, st)
 	case *ssa.BinOp:
@@ -1720,7 +1732,18 @@ func bitAnd(fx *FnCtx, x, y T, ii intInfo) T {
 	return bitwise(fx, "and", x, y, ii)
 }
 
-func bitOr(fx *FnCtx, x, y T, ii intInfo) T  { return bitwise(fx, "or", x, y, ii) }
+// bitOr: the common shapes (a zero operand, disjoint high/low nibbles) are
+// spelled out before the general bit-by-bit expansion.
+func bitOr(fx *FnCtx, x, y T, ii intInfo) T {
+	gen := bitwise(fx, "or", x, y, ii)
+	if ii.bits > 16 || ii.signed {
+		return gen
+	}
+	lowx, lowy := app("mod", x, "16"), app("mod", y, "16")
+	return ite(eq(y, "0"), x, ite(eq(x, "0"), y,
+		ite(and(eq(lowx, "0"), lt(y, "16")), add(x, y),
+			ite(and(eq(lowy, "0"), lt(x, "16")), add(x, y), gen))))
+}
 func bitXor(fx *FnCtx, x, y T, ii intInfo) T { return bitwise(fx, "xor", x, y, ii) }
 
 // bitwise expands a bit operation on narrow integers bit by bit.
